@@ -217,6 +217,9 @@ def core_order_cases():
             c = dict(base, mode=mode, iters=2, **extra)
             c['cap'] = 2 * c['conc']
             out.append(c)
+        if mode != 'process':
+            # a worker raising StopIteration, delivered as a value (return_exceptions)
+            out.append(dict(base, mode=mode, iters=1, conc=2, cap=4, src=[['d', i] for i in range(8)], call_fail={3: 24}, return_exc=True))
         if mode in ('athread', 'aasync'):
             for how in ('cancel', 'gc'):
                 out.append(dict(base, mode=mode, iters=2, conc=2, cap=4, src=[['d', i] for i in range(40)], stop_after=4, stop_kind=how))
@@ -285,7 +288,7 @@ def run_order_case(c):
         return x + PRE_OFFSET
 
     kw = {'fail': cf, 'off': off, 'scale': c['scale'], 'return_x': c['return_x'], 'return_exceptions': c['return_exc'],
-          'cid': None if c['mode'] == 'process' else cid, 'to_stop': 0}
+          'cid': None if c['mode'] == 'process' else cid, 'to_stop': 0, 'loop': 0}
     kw['tasks' if c['mode'] in ('async', 'aasync') else 'q'] = 0
     if c['has_pre']:
         kw['preprocessor'] = pre
@@ -297,6 +300,8 @@ def run_order_case(c):
         s = Stream(Source()).parmap(W.f, executor=c['mode'], concurrency=c['conc'], **kw)
 
     def code(y):
+        if isinstance(y, RuntimeError) and isinstance(y.__cause__, StopIteration):
+            y = y.__cause__
         if isinstance(y, BaseException):
             return v_exc(y.code) if hasattr(y, 'code') and isinstance(y.code, int) else -999999
         return y if isinstance(y, int) else -999998        # (None: a failure that was swallowed)
@@ -375,6 +380,8 @@ def _run_order_aenv(c, kw, cid, pf, cf):
         s = AsyncStream(Source()).parmap(W.f, executor='thread', concurrency=c['conc'], parmapper_name=pname, **kw)
 
     def code(y):
+        if isinstance(y, RuntimeError) and isinstance(y.__cause__, StopIteration):
+            y = y.__cause__            # an asyncio future cannot carry StopIteration: delivered chained to a RuntimeError
         if isinstance(y, BaseException):
             return v_exc(y.code) if hasattr(y, 'code') and isinstance(y.code, int) else -999999
         return y if isinstance(y, int) else -999998
